@@ -19,9 +19,9 @@ import time
 from . import staging
 from .registry import PROPS, UNITS
 
-VERIF = "/verif"
+VERIF = os.path.dirname(os.path.dirname(os.path.abspath(__file__)))   # /verif, or a snapshot of it (vp run)
 REPO = os.environ.get("VERIF_REPO", "/repo")
-WORK_ROOT = os.environ.get("VERIF_WORK", "/var/tmp/p2verif")
+WORK_ROOT = os.environ.get("VERIF_WORK", "/var/tmp/p2verif" if VERIF == "/verif" else "/var/tmp/p2verif-" + __import__("hashlib").md5(VERIF.encode()).hexdigest()[:8])
 CACHE = os.environ.get("VERIF_CACHE", os.path.join(VERIF, ".cache"))
 OUT = os.environ.get("VERIF_OUT", VERIF)   # evidence/ and replays/ live here (overridden for mutant trials)
 KNOWN = os.path.join(VERIF, "KNOWN_FINDINGS.txt")
